@@ -226,10 +226,7 @@ func CreateCertificate(template, parent *Certificate, publicKey *sm2.PublicKey, 
 	c.Raw = tbsCertContents
 
 	digest := tbsCertContents
-	switch template.SignatureAlgorithm {
-	case SM2WithSM3, SM2WithSHA1, SM2WithSHA256:
-		break
-	default:
+	if !signsRawTBS(signatureAlgorithm.Algorithm) {
 		h := hashFunc.New()
 		h.Write(tbsCertContents)
 		digest = h.Sum(nil)
